@@ -28,6 +28,7 @@ var (
 	fMode    = flag.String("sim.mode", "", "special mode (race, child, log)")
 	fLog     = flag.String("sim.log", "", "write a per-world event log here (determinism self-test)")
 	fJournal = flag.String("sim.journal", "", "write every plan here before executing it (crash forensics)")
+	fBatch   = flag.Int("sim.batch", -1, "run only this batch (the driver runs every batch in a process of its own: the parser's static caches grow with every distinct script)")
 )
 
 // Property is one claimed property's machinery.
@@ -66,7 +67,7 @@ func register(p *Property) { registry[p.ID] = p }
 
 func init() {
 	register(&Property{ID: "C01", Level: "exploration", World: c01World, Replay: c01Replay,
-		Worlds: map[string]int{"quick": 2500, "thorough": 12000}, Batch: map[string]int{"quick": 1, "thorough": 4},
+		Worlds: map[string]int{"quick": 2500, "thorough": 3000}, Batch: map[string]int{"quick": 1, "thorough": 12},
 		Rule: "worlds = generated program x layout x reader distribution x completion schedule, each run over all model-legal choice paths (<=64 leaves) or 8 sampled ones; a case is a (program, path); non-trivial = constructs nested >=2 deep, or a jump inside a nested body, or an option group ending an if/option body; distinct by hash of (program AST, choices)"})
 	register(&Property{ID: "C03", Level: "exploration", World: c03World, Replay: func(p *Plan) *Violation {
 		if ops, ok := decodeExtra[[]storerOp](p, "storer_ops"); ok {
@@ -74,37 +75,37 @@ func init() {
 		}
 		return c03Exec(p, nil)
 	},
-		Worlds: map[string]int{"quick": 4000, "thorough": 15000}, Batch: map[string]int{"quick": 1, "thorough": 12},
+		Worlds: map[string]int{"quick": 4000, "thorough": 5000}, Batch: map[string]int{"quick": 1, "thorough": 30},
 		Rule: "worlds = set/declare-heavy generated program (all six operators, typed and ill-typed, known and unknown variables) x host schedule with interleaved host-side writes (same type, new name, other type, clear) x storer kind (recording storer / host-held InMemoryStorer); after every op the storer's content is compared bit-exactly with the model store; non-trivial = >=3 assignments and (>=1 host write or a failing statement); distinct by hash of (program, ops)"})
 	register(&Property{ID: "C06", Level: "exploration", World: c06World, Replay: func(p *Plan) *Violation { return c06Exec(p, nil) },
-		Worlds: map[string]int{"quick": 4000, "thorough": 15000}, Batch: map[string]int{"quick": 1, "thorough": 12},
+		Worlds: map[string]int{"quick": 4000, "thorough": 5000}, Batch: map[string]int{"quick": 1, "thorough": 30},
 		Rule: "worlds = generated program with 1-2 fault sites (ill-typed operands, unknown variable/function/node/command, wrong arity or argument type, null, empty or overflowing random ranges, value-less or failing host function, non-boolean condition, bad wait arguments) at any depth, plus host faults (store cleared, other-type or markup-laden values written between steps); the model names the op of the first fault: an error is required there (or no panic where the properties leave the outcome open), then 8 further calls must not panic; non-trivial = the fault site was reached on the driven path; distinct by hash of (program, ops)"})
 	register(&Property{ID: "C10", Level: "exploration", World: c10World, Replay: func(p *Plan) *Violation { return c10Exec(p, nil) },
-		Worlds: map[string]int{"quick": 2500, "thorough": 12000}, Batch: map[string]int{"quick": 1, "thorough": 8},
+		Worlds: map[string]int{"quick": 2500, "thorough": 4000}, Batch: map[string]int{"quick": 1, "thorough": 24},
 		Rule: "worlds = command-heavy generated program x handler shapes (raw pre-filled / buffered / unbuffered channel, converted func(), func() error, func() chan error, func() <-chan error, typed and variadic parameters) x completion schedule per invocation (immediate, after 0-4 polls, nil or error) x host ops between polls (writes, clock advances) x <<wait n>> polled 1ns/1us before and after its deadline, all inside a testing/synctest bubble; each world is run again under another completion schedule and the two real traces are compared; non-trivial = >=1 invocation or wait and >=1 poll while pending; distinct by hash of (program, ops)"})
 	register(&Property{ID: "C07", Level: "fault_enumeration", World: c07World, Replay: func(p *Plan) *Violation { return c07Exec(p, nil) },
-		Worlds: map[string]int{"quick": 600, "thorough": 2500}, Batch: map[string]int{"quick": 1, "thorough": 4},
+		Worlds: map[string]int{"quick": 600, "thorough": 2000}, Batch: map[string]int{"quick": 1, "thorough": 5},
 		Rule: "worlds = multi-node generated program with jumps, variables, rendered visit counts, options, commands; an original run of 2-12 host steps in which EVERY step is a save point (snapshot + deep copy; immutability re-checked after every later op); a case is one crash/restore experiment (save point k, crash point c, receiver state: fresh / ready / choosing / pending / ended / sibling path / restored before, optionally a second receiver of the same snapshot, or a bogus snapshot) compared op by op (responses, variables, side effects, snapshots) against a reference runner replaying the original up to that node entry; non-trivial = snapshot with >=1 variable and >=1 non-zero visit count restored into a non-fresh receiver; distinct by hash of (program, original ops, experiment)"})
 	register(&Property{ID: "C11", Level: "exploration", World: c11World, Replay: func(p *Plan) *Violation { return c11Exec(p, nil) },
-		Worlds: map[string]int{"quick": 2500, "thorough": 12000}, Batch: map[string]int{"quick": 1, "thorough": 8},
+		Worlds: map[string]int{"quick": 2500, "thorough": 4000}, Batch: map[string]int{"quick": 1, "thorough": 24},
 		Rule: "worlds = jump-heavy generated program (self-loops, cycles, jumps out of nested option/if bodies, jumps by expression, any subset of nodes tracking: never/always) whose nodes start with an entry probe and whose lines render visited_count/visited for every node and two non-node names x a host schedule of 3-24 steps with snapshots and restores; expected counters are derived from the real run's own entry-probe log; non-trivial = >=2 jumps executed; distinct by hash of (program, ops)"})
 	register(&Property{ID: "C12", Level: "exploration", World: c12World, Replay: func(p *Plan) *Violation { return c12Exec(p, nil) },
-		Worlds: map[string]int{"quick": 4000, "thorough": 12000}, Batch: map[string]int{"quick": 1, "thorough": 24},
+		Worlds: map[string]int{"quick": 4000, "thorough": 5000}, Batch: map[string]int{"quick": 1, "thorough": 40},
 		Rule: "worlds = generated program with <<stop>> at any depth, option groups with empty bodies at the tail, commands, calls and sets queued behind the end x a path to the first end x 1-8 further calls with in-range, out-of-range, negative and huge arguments interleaved with host writes, clock advances and releases, optionally followed by a restore and a second round; non-trivial = >=2 post-end calls, one with a non-zero argument, on a program with a stop or an option group; distinct by hash of (program, path, post-end schedule, round)"})
 	register(&Property{ID: "C05", Level: "fault_enumeration", World: c05World, Replay: c05Replay, Fixed: c05Fixed,
-		Worlds: map[string]int{"quick": 60, "thorough": 400}, Batch: map[string]int{"quick": 1, "thorough": 3},
+		Worlds: map[string]int{"quick": 50, "thorough": 120}, Batch: map[string]int{"quick": 1, "thorough": 8},
 		Rule: "a case is one faulted delivery of a base script through the real NewDialogueRunner: EVERY truncation offset and EVERY single-byte deletion of each generated base script (strided only above 700 bytes; the repo's own .yarn fixtures are strided), plus sampled byte/bit flips, insertions of syntax fragments, line swaps/duplications/drops/re-indentations (incl. tab/space mixes), read errors at an offset, byte-level splits over 2-3 readers, seed strings, random byte strings and the empty input, each under one of 8 chunkings / 2 EOF styles; judged against an independent lexer+parser run with a counting error listener; non-trivial = the fault changed the stream's validity verdict; distinct by hash of the faulted bytes"})
 	register(&Property{ID: "C20", Level: "exploration", World: c20World, Replay: c20Replay,
 		Worlds: map[string]int{"quick": 3000, "thorough": 8000}, Batch: map[string]int{"quick": 1, "thorough": 12},
 		Rule: "three kinds of cases: (1) histories of 1-120 Enqueue/Dequeue/Peek/Size ops on container.Queue[int] with unique values against a slice, biased to fill, shift and grow the ring buffer; (2) histories of Push/PushAll/Pop/Peek/Size/Clear on container.Stack[int]; (3) token streams of the real lexer over a generated, deeply indented script and its stream faults (every truncation offset, every byte deletion, sampled mutations): DEDENT never exceeds INDENT, both are equal at EOF, one EOF ends the stream, no nil token; non-trivial = queue history with >=1 growth / stack depth >=4 / token stream with >=2 INDENTs; distinct by hash of the history or bytes"})
 	register(&Property{ID: "C09", Level: "exploration", World: c09World, Replay: func(p *Plan) *Violation { return c09Exec(p, nil) },
-		Worlds: map[string]int{"quick": 1200, "thorough": 6000}, Batch: map[string]int{"quick": 1, "thorough": 4},
+		Worlds: map[string]int{"quick": 1200, "thorough": 3000}, Batch: map[string]int{"quick": 1, "thorough": 8},
 		Rule: "worlds = generated program using dice/random/random_range in lines, conditions, sets and option conditions x seed string over [0-9a-z]{1,20} x host schedule of 3-24 steps; each world is executed 6+ times in-process (plain, repeated, after 1-3 unrelated seeded runners, after 1-50 draws from the global math/rand and math/rand/v2 sources, under a clock moved by up to 10^6 s inside a bubble, with a neighbour runner stepped during its callbacks) and, in the procs mode, in fresh child processes with GOMAXPROCS 1/4/16 and GOGC 100/25/off; canonical traces (elements, error texts, variables after every op) must be byte-identical and every rendered random value must lie in its range; non-trivial = >=2 random values rendered; distinct by hash of the trace"})
 	register(&Property{ID: "C18", Level: "exploration", World: c18World, Replay: func(p *Plan) *Violation { return c18Exec(p, nil) },
-		Worlds: map[string]int{"quick": 900, "thorough": 4500}, Batch: map[string]int{"quick": 1, "thorough": 8},
+		Worlds: map[string]int{"quick": 900, "thorough": 3000}, Batch: map[string]int{"quick": 1, "thorough": 12},
 		Rule: "deterministic part: worlds = 2-4 runners over 1-2 generated programs (random built-ins, markup, commands, variables, counters), each with its own dynamic op list (steps, host writes, releases, snapshot/restore); one total order interleaves their creations and steps, and every n-th host callback (storer read, host function, command handler entry) of the running runner executes a burst of 1-3 steps of another runner in the middle of the call; each runner's full trace (elements, variables, side effects, snapshots) must equal its solo trace; non-trivial = >=1 mid-call burst; distinct by hash of the plan. Stress part (race mode, -race binary, real scheduler, fresh processes with cold parser caches): 4-16 goroutines create and drive the runners concurrently from the first instruction; no race report, every trace equals the sequential one"})
 	register(&Property{ID: "C14", Level: "exploration", World: c14World, Replay: c14Replay,
-		Worlds: map[string]int{"quick": 4000, "thorough": 20000}, Batch: map[string]int{"quick": 1, "thorough": 4},
+		Worlds: map[string]int{"quick": 4000, "thorough": 10000}, Batch: map[string]int{"quick": 1, "thorough": 8},
 		Rule: "two kinds of cases, both real-vs-real: (a) a history of 2-12 ParseMarkup calls on ONE LineParser value over lines assembled from text chunks (ASCII, multi-byte), escapes, open/close/close-all/self-closing markers with properties, replacement markers, character prefixes and failing lines (unterminated marker, bad property, unexpected close, EOF inside a string) - every result is compared with a fresh parser's; (b) a dialogue whose option bodies hold 0-4 such lines each, followed by shared lines: the shared lines' text and attributes must be identical whichever option was taken; non-trivial = >=2 attributes involved; distinct by hash of the lines / script"})
 }
 
@@ -220,7 +221,7 @@ var worldLog *os.File
 
 func TestSim(t *testing.T) {
 	gT = t
-	debug.SetGCPercent(400)
+	debug.SetGCPercent(gcPercent())
 	journalFile = *fJournal
 	if *fMode == "child" {
 		runChild()
@@ -352,7 +353,15 @@ func TestSim(t *testing.T) {
 		return
 	}
 
-	if prop.Fixed != nil {
+	if *fMode == "batches" {
+		n := prop.Batch[env.Tier]
+		if n == 0 {
+			n = 1
+		}
+		fmt.Printf("BATCHES %d\n", n)
+		return
+	}
+	if prop.Fixed != nil && *fBatch <= 0 {
 		for _, plan := range prop.Fixed(env) {
 			if plan != nil && plan.Violation != nil {
 				addViolation(plan, plan.Violation)
@@ -371,6 +380,9 @@ func TestSim(t *testing.T) {
 		}
 		flag.Set("rapid.checks", fmt.Sprint(worlds))
 		for b := 0; b < batches && len(res.Violations) < 3; b++ {
+			if *fBatch >= 0 && b != *fBatch {
+				continue
+			}
 			rs := mix64(mix64(env.VerifSeed, hashStr(prop.ID)), uint64(env.Shard)*1000+uint64(b))
 			rs &= (1 << 62) - 1
 			if rs == 0 {
@@ -444,4 +456,16 @@ func runReplay(t *testing.T) {
 	fmt.Printf("REPLAY property=%s clause=%s result=violated observed_clause=%s\n", plan.Property, plan.Clause, v.Clause)
 	fmt.Printf("VIOLATION property=%s replay=%s\n", plan.Property, *fReplay)
 	os.Exit(1)
+}
+
+// gcPercent: the harness allocates a lot of short-lived garbage (parses); 200 trades some speed for memory.
+func gcPercent() int {
+	if v := os.Getenv("VERIF_GOGC"); v != "" {
+		var n int
+		fmt.Sscanf(v, "%d", &n)
+		if n > 0 {
+			return n
+		}
+	}
+	return 200
 }
